@@ -140,4 +140,52 @@ theorem dp_last (a b : List α) :
   rw [h0, dpRows_eq a b a 0 (by simp) (by omega)]
   simp [List.range_succ, lev]
 
+/-- the prefix recurrence satisfies the first-token recurrence. -/
+theorem levP_cons (x y : α) (a b : List α) : ∀ i j : Nat,
+    levP (x :: a) (y :: b) (i + 1) (j + 1) =
+      min (levP a (y :: b) i (j + 1) + 1)
+        (min (levP (x :: a) b (i + 1) j + 1) (levP a b i j + if x = y then 0 else 1)) := by
+  intro i
+  induction i with
+  | zero =>
+    intro j
+    induction j with
+    | zero =>
+      simp only [levP_succ, levP_zero_left, levP_zero_right, List.getElem?_cons_zero, Option.some.injEq]
+    | succ j ih =>
+      rw [levP_succ, ih, levP_succ (x :: a) b 0 j]
+      simp only [levP_zero_left, List.getElem?_cons_zero, List.getElem?_cons_succ]
+      split <;> split <;> omega
+  | succ i ihi =>
+    intro j
+    induction j with
+    | zero =>
+      rw [levP_succ, ihi 0, levP_succ a (y :: b) i 0]
+      simp only [levP_zero_right, List.getElem?_cons_zero, List.getElem?_cons_succ]
+      split <;> split <;> omega
+    | succ j ihj =>
+      rw [levP_succ, ihi (j + 1), ihj, ihi j, levP_succ a (y :: b) i (j + 1),
+        levP_succ (x :: a) b (i + 1) j, levP_succ a b i j]
+      simp only [List.getElem?_cons_succ]
+      generalize levP a (y :: b) i (j + 2) = A1
+      generalize levP (x :: a) b (i + 1) (j + 1) = A2
+      generalize levP a b i (j + 1) = A3
+      generalize levP a (y :: b) (i + 1) (j + 1) = B1
+      generalize levP (x :: a) b (i + 2) j = B2
+      generalize levP a b (i + 1) j = B3
+      generalize levP a (y :: b) i (j + 1) = C1
+      generalize levP (x :: a) b (i + 1) j = C2
+      generalize levP a b i j = C3
+      split <;> split <;>
+        simp only [Nat.add_zero, ← Nat.add_min_add_right, Nat.min_comm, Nat.min_left_comm]
+
+theorem lev_eq_levL (a b : List α) : lev a b = levL a b := by
+  fun_induction levL a b with
+  | case1 b => simp [lev, levP_zero_left]
+  | case2 a h => simp [lev, levP_zero_right]
+  | case3 x a y b ih1 ih2 ih3 =>
+    unfold lev at *
+    simp only [List.length_cons] at *
+    rw [levP_cons, ih1, ih2, ih3]
+
 end TE.TextL
